@@ -1,6 +1,9 @@
 use crate::run::*;
 
+pub mod group;
+pub mod history;
 pub mod sesscc;
+pub mod slots;
 
 #[derive(Clone, Copy, PartialEq, Eq, Debug)]
 pub enum Tier {
@@ -20,6 +23,13 @@ pub trait Check: Sync {
     fn fault_kinds(&self) -> &'static [&'static str];
     /// relative cost: default number of runs per tier
     fn budget(&self, tier: Tier) -> u64;
+    /// number of leading runs that enumerate a finite input space completely
+    fn enumerated(&self, _tier: Tier) -> u64 {
+        0
+    }
+    fn gen_enum(&self, _i: u64, _seed: u64, _tier: Tier) -> Run {
+        unreachable!()
+    }
 }
 
 pub fn registry() -> Vec<Box<dyn Check>> {
@@ -27,6 +37,9 @@ pub fn registry() -> Vec<Box<dyn Check>> {
         Box::new(sesscc::SessCc { id: "C01" }),
         Box::new(sesscc::SessCc { id: "C02" }),
         Box::new(sesscc::SessCc { id: "C08" }),
+        Box::new(group::GroupCheck),
+        Box::new(history::HistoryCheck),
+        Box::new(slots::SlotCheck),
     ]
 }
 
